@@ -411,8 +411,16 @@ def l_len(interp, recv, args):
     return float(len(recv.items))
 
 
+def _grow(interp, recv):
+    while len(recv.items) > recv.cap:
+        recv.cap = max(recv.cap * 2, len(recv.items))
+        interp.count("list_grow")
+
+
 def l_push(interp, recv, args):
-    recv.items.extend(args)
+    for a in args:
+        recv.items.append(a)
+        _grow(interp, recv)
     interp.count("list_push", len(args))
     return None
 
@@ -445,6 +453,7 @@ def l_insert(interp, recv, args):
     if i > len(recv.items):
         raise interp.error("IndexError", "Cannot insert at index")
     recv.items.insert(i, args[1])
+    _grow(interp, recv)
     return None
 
 
